@@ -264,6 +264,7 @@ func (pl *Plan) Datagram(r *hx.Rng, p *Peer, refs []int64) Dgram {
 	}
 	if r.Chance(1, 8) {
 		d.Result = true
+		d.Fct = int64(r.Pick(6, 2, 1, 1))
 		d.Err = int64(r.Pick(2, 1, 1, 1)) * int64(r.Range(1, 3))
 		if d.Ref == 0 && len(refs) > 0 && r.Chance(2, 3) {
 			d.Ref = refs[r.Intn(len(refs))] + 1
@@ -284,11 +285,14 @@ func (pl *Plan) Datagram(r *hx.Rng, p *Peer, refs []int64) Dgram {
 			}
 		}
 	}
+	d.Fct = int64(r.Pick(6, 2, 1, 1))
 	switch d.Pl.Kind {
 	case 0:
 		d.Pl.Fn = pickFn(r, lf, rf)
 		if d.Cls != 0 {
 			d.Pl.V = int64(r.Range(1, 900))
+		} else {
+			d.Sel = int64(r.Pick(3, 1, 1)) // plain read / restricted by selectors / by elements
 		}
 	case 1:
 		if d.Cls == 2 {
@@ -442,7 +446,12 @@ func MatrixHistory(t, role int64, full bool) []hx.Zs {
 					for _, ann := range []bool{true, false} {
 						for _, p := range peers { // peer 1 is bound and subscribed, peer 2 is not
 							n++
-							d := Dgram{Ctr: p.Next(), Ack: ack, Cls: cls, Pl: pl}
+							// the function element (absent / the data's / empty / another) and, for reads of data
+							// functions, the restriction (none / selectors / elements) cycle through the cells
+							d := Dgram{Ctr: p.Next(), Ack: ack, Cls: cls, Pl: pl, Fct: int64(n % 4)}
+							if cls == 0 && pl.Kind == 0 {
+								d.Sel = int64(n/4) % 3
+							}
 							d.Src = p.Addr(p.Feats[0], n%3 != 0)
 							if t == 5 && n%4 < 2 {
 								d.Src = p.Addr(nmFeat, true)
@@ -484,6 +493,19 @@ func MatrixHistory(t, role int64, full bool) []hx.Zs {
 							}
 						}
 					}
+				}
+			}
+		}
+	}
+	// the reads this stack itself sends when a selector or elements are given (ReadCmdType: empty function
+	// element + partial filter), and the same with every variant of the function element
+	if t != 5 {
+		for _, fn := range fns {
+			for sel := int64(1); sel <= 2; sel++ {
+				for fct := int64(0); fct <= 3; fct++ {
+					p := peers[int(fn+sel+fct)%2]
+					h = append(h, OpInbound(p.Ski, Dgram{Src: p.Addr(p.Feats[0], true), Dst: target.Addr(1), Ctr: p.Next(),
+						Cls: 0, Pl: Payload{Kind: 0, Fn: fn}, Fct: fct, Sel: sel}))
 				}
 			}
 		}
@@ -599,6 +621,7 @@ func CallbackHistory(r *hx.Rng, tier string) []hx.Zs {
 		case 1:
 			d.Ref = int64(r.Range(7, 12)) + 1 // nobody waits for it
 		}
+		d.Fct = int64(r.Pick(6, 2, 1, 1))
 		if r.Chance(2, 5) {
 			d.Result = true
 			d.Err = int64(r.Pick(3, 1, 1)) * int64(r.Range(1, 4)) % 8
@@ -682,11 +705,7 @@ func ParHistory(r *hx.Rng, tier string) []hx.Zs {
 		peers = append(peers, p)
 		h = append(h, p.Announce()...)
 	}
-	for _, t := range targets {
-		for k := 0; k < r.Pick(3, 2, 1); k++ {
-			h = append(h, OpAddResultCb(t.Ent, t.Id, int64(r.Intn(NCallbacks))))
-		}
-	}
+	h = append(h, resultCallbacks(r, targets)...)
 	gone := map[int64]bool{}
 	rounds := r.Range(15, 35)
 	if tier == "thorough" {
@@ -761,6 +780,111 @@ func ParHistory(r *hx.Rng, tier string) []hx.Zs {
 					break
 				}
 			}
+		}
+	}
+	return h
+}
+
+// resultCallbacks registers 0-7 result callbacks on every target; in two of three cases the first
+// one is the slow callback 7 (it blocks until the operation that invoked it waits for quiescence).
+func resultCallbacks(r *hx.Rng, targets []LFeat) []hx.Zs {
+	var h []hx.Zs
+	for _, t := range targets {
+		k := []int{0, 1, 2, 3, 3, 4, 5, 5, 6, 7, 7}[r.Intn(11)]
+		for j := 0; j < k; j++ {
+			cb := int64(r.Intn(NCallbacks - 1))
+			if j == 0 && r.Chance(2, 3) {
+				cb = 7
+			}
+			h = append(h, OpAddResultCb(t.Ent, t.Id, cb))
+		}
+	}
+	return h
+}
+
+// OpSeqArrive encodes "these datagrams arrive one after the other without waiting for the callbacks".
+func OpSeqArrive(arr []struct {
+	P int64
+	D Dgram
+}) hx.Zs {
+	z := hx.Zs{13, int64(len(arr))}
+	for _, a := range arr {
+		enc := OpInbound(0, a.D)[2:]
+		z = append(z, a.P, int64(len(enc)))
+		z = append(z, enc...)
+	}
+	return z
+}
+
+// SeqHistory: results in quick succession.  Four peers, four local features with 0-7 result
+// callbacks (mostly a slow one first); every round registers response callbacks for two to four
+// fresh counters on one feature and then delivers the results (now and then a reply, a repeated or
+// an unknown reference) for these counters back to back, while the callbacks of the first ones are
+// still being worked off; now and then a result callback is added between the rounds.
+func SeqHistory(r *hx.Rng, tier string) []hx.Zs {
+	e := []int64{1}
+	h := []hx.Zs{OpAddLocalEntity(e), OpAddLocalFeature(e, 1, 0), OpAddLocalFeature(e, 2, 1)}
+	targets := []LFeat{{Ent: e, Id: 1, Type: 1, Role: 0}, {Ent: e, Id: 2, Type: 2, Role: 1}, NMLocal, {Ent: []int64{0}, Id: 1, Type: 6, Role: 1}}
+	var peers []*Peer
+	for k := int64(1); k <= 4; k++ {
+		p := &Peer{Ski: k, Feats: []RFeat{{Ent: e, Id: 1, Type: 1, Role: 1}, {Ent: e, Id: 2, Type: 2, Role: 0}}}
+		peers = append(peers, p)
+		h = append(h, p.Announce()...)
+	}
+	h = append(h, resultCallbacks(r, targets)...)
+	rounds := r.Range(10, 25)
+	if tier == "thorough" {
+		rounds = r.Range(15, 60)
+	}
+	next := int64(2000)
+	for i := 0; i < rounds; i++ {
+		t := targets[r.Intn(len(targets))]
+		var ctrs []int64
+		for k := 0; k < r.Range(2, 4); k++ {
+			next++
+			ctrs = append(ctrs, next)
+			for j := 0; j < r.Range(1, 2); j++ {
+				h = append(h, OpAddRespCb(t.Ent, t.Id, next, int64(r.Intn(NCallbacks-1))))
+			}
+		}
+		var arr []struct {
+			P int64
+			D Dgram
+		}
+		add := func(ref int64) {
+			p := peers[r.Intn(len(peers))]
+			d := Dgram{Src: p.Addr(p.Feats[0], r.Bool()), Dst: t.Addr(int64(r.Intn(2))), Ctr: p.Next(), Ref: ref + 1,
+				Result: true, Err: int64(r.Intn(4)), Fct: int64(r.Pick(6, 2, 1, 1))}
+			if r.Chance(1, 6) {
+				d.Result = false
+				d.Cls = 1
+				d.Pl = Payload{Kind: 0, Fn: FnsOfType(1)[r.Intn(6)], V: int64(r.Range(1, 900))}
+			}
+			arr = append(arr, struct {
+				P int64
+				D Dgram
+			}{p.Ski, d})
+		}
+		for _, c := range ctrs {
+			add(c)
+			if r.Chance(1, 8) {
+				add(c) // repeated reference
+			}
+			if r.Chance(1, 10) {
+				add(9000 + c) // nobody waits for it
+			}
+		}
+		h = append(h, OpSeqArrive(arr))
+		if r.Chance(1, 6) {
+			h = append(h, OpAddResultCb(t.Ent, t.Id, int64(r.Intn(NCallbacks-1))))
+		}
+		if r.Chance(1, 10) {
+			// the same through overlapping arrivals of one of the results
+			p := peers[r.Intn(len(peers))]
+			next++
+			h = append(h, OpAddRespCb(t.Ent, t.Id, next, int64(r.Intn(NCallbacks-1))))
+			d := Dgram{Src: FAddr{Ent: e, Feat: 2}, Dst: t.Addr(1), Ctr: p.Next(), Ref: next + 1, Result: true, Err: 1}
+			h = append(h, OpParArrive([]int64{1, 2, 3}, d, 0, p.Ski))
 		}
 	}
 	return h
